@@ -3,7 +3,7 @@
    the sequence numbers visible at each slot; the byte-level model Orig.orig_start takes its decisions from exactly this
    function.  [consistent N h p f s0]: f consecutively numbered slots starting at position p with number s0, the rest blank. *)
 From Coq Require Import List NArith Arith.
-Require Import OrigRing.
+Require Import OrigRing OrigStart.
 Import ListNotations.
 
 (* for every slot count 2 <= N < 2^32 - 1, rotation p, fill level f and starting number s0 (the wrap across 2^32 - 1 included:
@@ -21,6 +21,28 @@ Proof. exact next_seq_mod. Qed.
 Theorem c20_next_seq_never_reserved : forall s, (next_seq s < 4294967295)%N.
 Proof. exact next_seq_lt. Qed.
 
+(* the two allocations of start composed ([place] = one allocation: overwrite the position find_oldest names with the number it
+   names, which is what Orig.orig_alloc_one does with the headers it re-reads from flash): on every consistent ring the firmware
+   header goes to the position after the newest slot, the parity header to the ring successor of that position, and they get the
+   next two sequence numbers (next_seq skips the reserved value, also across the wrap) *)
+Theorem c20_start_takes_next_two : forall N_ h p f s0, (2 <= N_)%nat -> (N.of_nat N_ < 4294967295)%N -> consistent N_ h p f s0 ->
+  let '((s1, q1), h1) := place N_ h in
+  let '((s2, q2), _) := place N_ h1 in
+  s1 = (if Nat.eqb f 0 then 0 else if Nat.eqb f N_ then p else (p + f) mod N_)%nat /\
+  q1 = (if Nat.eqb f 0 then 0 else next_seq (iter_next (f - 1) s0))%N /\
+  s2 = ((s1 + 1) mod N_)%nat /\ q2 = next_seq q1.
+Proof. exact start_takes_next_two. Qed.
+(* ... and the ring stays consistent (one slot more, or the run shifted by one on a full ring), so the statement applies again
+   to the next update *)
+Theorem c20_allocation_keeps_ring_consistent : forall N_ h p f s0, (2 <= N_)%nat -> (N.of_nat N_ < 4294967295)%N -> consistent N_ h p f s0 ->
+  let h1 := snd (place N_ h) in
+  if Nat.eqb f 0 then consistent N_ h1 0 1 0
+  else if Nat.eqb f N_ then consistent N_ h1 ((p + 1) mod N_) N_ (next_seq s0)
+  else consistent N_ h1 p (S f) s0.
+Proof. exact place_consistent. Qed.
+
 Print Assumptions c20_ring_find_oldest.
+Print Assumptions c20_start_takes_next_two.
+Print Assumptions c20_allocation_keeps_ring_consistent.
 Print Assumptions c20_next_seq_mod.
 Print Assumptions c20_next_seq_never_reserved.
